@@ -47,9 +47,11 @@ def breakoutNames : List Name :=
 
 /-- "while the current node is not a MathML text integration point, an HTML integration point, or an
 element in the HTML namespace, pop elements from the stack of open elements" -/
-def State.popForeign (c : Cfg) (s : State) : State :=
-  { s with stack := popWhileNot (fun e =>
-      e.ns == .html || e.isMathmlTextIP || (if c.dev.breakoutNoAnnotationXml then e.isSvgHtmlIP else e.isHtmlIP)) s.stack }
+def Tree.popForeign (c : Cfg) (t : Tree) : Tree :=
+  { t with stack := popWhileNot (fun e =>
+      e.ns == .html || e.isMathmlTextIP || (if c.dev.breakoutNoAnnotationXml then e.isSvgHtmlIP else e.isHtmlIP)) t.stack }
+
+abbrev State.popForeign (c : Cfg) (s : State) : State := s.onTree (·.popForeign c)
 
 /-- outcome of the "any other end tag" walk of §13.2.6.5 -/
 inductive ForeignEnd
@@ -95,10 +97,10 @@ def foreignRules (c : Cfg) (s : State) : Token → Res
       | [_] => .ok s
       | e :: es =>
         -- the current node (not an HTML element here): compare, then walk down
-        if e.name == n then .ok { s with stack := es }
+        if e.name == n then .ok (s.onTree fun t => { t with stack := es })
         else
           match foreignEndLoop n es with
-          | .popTo st => .ok { s with stack := st }
+          | .popTo st => .ok (s.onTree fun t => { t with stack := st })
           | .unchanged => .ok s
           | .handOver => .reprocess s true
   | .eof => .ok s       -- not reachable: EOF is dispatched to the HTML rules
